@@ -26,8 +26,8 @@
 (* series list and end their streams normally.  Load pcs: lopen (about to   *)
 (* call Querier()), lsel (querier open, Select / series set), lclose.       *)
 (* Environment: Cancel (context cancelled / deadline / Query.Cancel), at   *)
-(* any time before Exec returns; StorageFault: one storage read fails      *)
-(* (error, or a recovered panic) at a nondeterministically chosen read.    *)
+(* any time before Exec returns; StorageFault: up to Faults storage reads   *)
+(* fail (error, or a recovered panic) at nondeterministically chosen reads. *)
 (***************************************************************************)
 EXTENDS Integers, Sequences, FiniteSets, TLC
 
@@ -35,7 +35,9 @@ CONSTANTS S,        \* number of shards (concurrency operators below the coalesc
           K,        \* batches per leaf
           Cap,      \* buffer capacity (2 in the code)
           Recheck,  \* TRUE: Exec looks at the context after its loop (the repaired code)
-          Faults,   \* TRUE: one storage read may fail
+          Faults,   \* how many storage reads may fail (0, 1, 2: two shards failing in the same round)
+          JoinChecksEndFirst,  \* FALSE: coalesce.Next reads the error channel before deciding that the stream ended (the code);
+                               \* TRUE: the other order (non-vacuity control for ErrorSurfaces with several failing shards)
           RecvSelectsCtx  \* FALSE: concurrencyOperator.Next blocks on the buffer (the code); TRUE: it also
                           \* selects on ctx.Done (a plausible change - used as the non-vacuity control for the querier clauses)
 
@@ -65,13 +67,18 @@ MainFan == /\ mainPc = "fan"
               ELSE /\ mainPc' = "join" /\ fanPc' = [s \in Shards |-> "ctx"] /\ fanRes' = [s \in Shards |-> "none"] /\ UNCHANGED result
            /\ UNCHANGED <<ctx, got, started, buf, closed, pullPc, pullMsg, produced, drainPc, faultLeft, faultFired, load, openQ, qhist>>
 MainJoin == /\ mainPc = "join" /\ \A s \in Shards : fanPc[s] = "done"
-            /\ IF \E s \in Shards : fanRes[s] \in {"err", "ctxerr"}
-                 THEN /\ mainPc' = "ret" /\ UNCHANGED got
-                      /\ result' = IF \E s \in Shards : fanRes[s] = "err" THEN "err" ELSE "ctxerr"
-                 ELSE IF \A s \in Shards : fanRes[s] = "end"
-                   THEN mainPc' = "after" /\ UNCHANGED <<got, result>>
-                   ELSE \* a merged batch (of the children that delivered one) is assembled
-                        mainPc' = "check" /\ got' = got + 1 /\ UNCHANGED result
+            /\ LET anyErr == \E s \in Shards : fanRes[s] \in {"err", "ctxerr"}
+                   noBatch == \A s \in Shards : fanRes[s] # "batch"
+                   errRes == IF \E s \in Shards : fanRes[s] = "err" THEN "err" ELSE "ctxerr"
+               IN IF JoinChecksEndFirst
+                    THEN \* control: "nothing was merged" is looked at before the error channel
+                         IF noBatch THEN mainPc' = "after" /\ UNCHANGED <<got, result>>
+                         ELSE IF anyErr THEN mainPc' = "ret" /\ result' = errRes /\ UNCHANGED got
+                         ELSE mainPc' = "check" /\ got' = got + 1 /\ UNCHANGED result
+                    ELSE IF anyErr THEN mainPc' = "ret" /\ result' = errRes /\ UNCHANGED got
+                         ELSE IF noBatch THEN mainPc' = "after" /\ UNCHANGED <<got, result>>
+                         ELSE \* a merged batch (of the children that delivered one) is assembled
+                              mainPc' = "check" /\ got' = got + 1 /\ UNCHANGED result
             /\ fanPc' = [s \in Shards |-> "idle"]
             /\ UNCHANGED <<ctx, fanRes, started, buf, closed, pullPc, pullMsg, produced, drainPc, faultLeft, faultFired, load, openQ, qhist>>
 MainAfter == /\ mainPc = "after"
@@ -118,9 +125,9 @@ PullRead(s) == /\ pullPc[s] = "read"
                   \/ /\ ctx = "live" /\ load = "done" /\ produced[s] < K
                      /\ pullPc' = [pullPc EXCEPT ![s] = "send"] /\ pullMsg' = [pullMsg EXCEPT ![s] = "batch"]
                      /\ produced' = [produced EXCEPT ![s] = @ + 1] /\ UNCHANGED <<faultLeft, faultFired, load>>
-                  \/ /\ ctx = "live" /\ load = "done" /\ produced[s] < K /\ faultLeft          \* StorageFault at this read (sample iterator)
+                  \/ /\ ctx = "live" /\ load = "done" /\ produced[s] < K /\ faultLeft > 0      \* StorageFault at this read (sample iterator)
                      /\ pullPc' = [pullPc EXCEPT ![s] = "send"] /\ pullMsg' = [pullMsg EXCEPT ![s] = "err"]
-                     /\ faultLeft' = FALSE /\ faultFired' = TRUE /\ UNCHANGED <<produced, load>>
+                     /\ faultLeft' = faultLeft - 1 /\ faultFired' = TRUE /\ UNCHANGED <<produced, load>>
                   \* load = "loading" by another shard: blocked on the Once (no disjunct)
                /\ UNCHANGED <<ctx, mainPc, got, result, fanPc, fanRes, started, buf, closed, drainPc, openQ, qhist>>
 \* loadSeries, three steps: storage.Querier() [may fail: nothing was opened], Select + series set [may fail], deferred Close
@@ -128,12 +135,12 @@ LoadOpen(s) == /\ pullPc[s] = "lopen"
                /\ \/ /\ pullPc' = [pullPc EXCEPT ![s] = "lsel"] /\ openQ' = openQ + 1
                      /\ qhist' = [qhist EXCEPT !.opened = @ + 1, !.late = @ \/ mainPc = "done"]
                      /\ UNCHANGED <<pullMsg, faultLeft, faultFired, load>>
-                  \/ /\ faultLeft /\ faultLeft' = FALSE /\ faultFired' = TRUE /\ load' = "failed"
+                  \/ /\ faultLeft > 0 /\ faultLeft' = faultLeft - 1 /\ faultFired' = TRUE /\ load' = "failed"
                      /\ pullPc' = [pullPc EXCEPT ![s] = "send"] /\ pullMsg' = [pullMsg EXCEPT ![s] = "err"] /\ UNCHANGED <<openQ, qhist>>
                /\ UNCHANGED <<ctx, mainPc, got, result, fanPc, fanRes, started, buf, closed, produced, drainPc>>
 LoadSelect(s) == /\ pullPc[s] = "lsel"
                  /\ \/ /\ pullMsg' = [pullMsg EXCEPT ![s] = "none"] /\ UNCHANGED <<faultLeft, faultFired>>
-                    \/ /\ faultLeft /\ faultLeft' = FALSE /\ faultFired' = TRUE /\ pullMsg' = [pullMsg EXCEPT ![s] = "err"]
+                    \/ /\ faultLeft > 0 /\ faultLeft' = faultLeft - 1 /\ faultFired' = TRUE /\ pullMsg' = [pullMsg EXCEPT ![s] = "err"]
                  /\ pullPc' = [pullPc EXCEPT ![s] = "lclose"]
                  /\ UNCHANGED <<ctx, mainPc, got, result, fanPc, fanRes, started, buf, closed, produced, drainPc, load, openQ, qhist>>
 LoadClose(s) == /\ pullPc[s] = "lclose"
